@@ -126,6 +126,8 @@ class Evaluator:
                 else:
                     out += format(self.ev(v.value), self.ev(v.format_spec) if v.format_spec else "")
             return out
+        if isinstance(e, ast.Await):
+            return self.ev(e.value)
         if isinstance(e, ast.Call):
             return self._call(e)
         if isinstance(e, (ast.ListComp, ast.SetComp, ast.GeneratorExp)) and len(e.generators) == 1:
